@@ -103,6 +103,9 @@ enum CorrelationValue {
     Utf8(String),
     Boolean(bool),
     Date32(i32),
+    /// Any other non-nested type: the cell's text rendering, which is
+    /// distinct for distinct values of one column
+    Other(String),
 }
 
 /// Result of a subquery execution
@@ -149,8 +152,16 @@ impl SubqueryExecutor {
         }
     }
 
-    /// Extract correlation values from a batch row for cache key
-    fn extract_correlation_values(&self, batch: &RecordBatch, row: usize) -> Vec<CorrelationValue> {
+    /// Extract correlation values from a batch row for cache key.
+    ///
+    /// The key must tell apart any two rows that differ in some column, or the
+    /// later row is answered with the earlier row's cached result. `None`
+    /// means a cell has no exact key: that row is evaluated without the cache.
+    fn extract_correlation_values(
+        &self,
+        batch: &RecordBatch,
+        row: usize,
+    ) -> Option<Vec<CorrelationValue>> {
         use arrow::array::*;
 
         batch
@@ -158,9 +169,9 @@ impl SubqueryExecutor {
             .iter()
             .map(|col| {
                 if col.is_null(row) {
-                    return CorrelationValue::Null;
+                    return Some(CorrelationValue::Null);
                 }
-                match col.data_type() {
+                let value = match col.data_type() {
                     arrow::datatypes::DataType::Int64 => {
                         let arr = col.as_any().downcast_ref::<Int64Array>().unwrap();
                         CorrelationValue::Int64(arr.value(row))
@@ -185,8 +196,14 @@ impl SubqueryExecutor {
                         let arr = col.as_any().downcast_ref::<Date32Array>().unwrap();
                         CorrelationValue::Date32(arr.value(row))
                     }
-                    _ => CorrelationValue::Null,
-                }
+                    // Int8/Int16/Float32 (which the literal substitution
+                    // accepts) and anything it may accept later.
+                    dt if !dt.is_nested() => CorrelationValue::Other(
+                        arrow::util::display::array_value_to_string(col, row).ok()?,
+                    ),
+                    _ => return None,
+                };
+                Some(value)
             })
             .collect()
     }
@@ -752,8 +769,9 @@ fn execute_correlated_scalar_subquery(
         let correlation_values = executor.extract_correlation_values(batch, row);
 
         // Check cache first
-        if let Some(SubqueryResult::Scalar(cached)) =
-            executor.get_correlated_cache(plan_hash, &correlation_values)
+        if let Some(SubqueryResult::Scalar(cached)) = correlation_values
+            .as_ref()
+            .and_then(|key| executor.get_correlated_cache(plan_hash, key))
         {
             results.push(cached);
             continue;
@@ -768,11 +786,9 @@ fn execute_correlated_scalar_subquery(
         let scalar = executor.execute_scalar(&substituted_plan)?;
 
         // Cache the result
-        executor.set_correlated_cache(
-            plan_hash,
-            correlation_values,
-            SubqueryResult::Scalar(scalar.clone()),
-        );
+        if let Some(key) = correlation_values {
+            executor.set_correlated_cache(plan_hash, key, SubqueryResult::Scalar(scalar.clone()));
+        }
         results.push(scalar);
     }
 
@@ -798,8 +814,9 @@ fn execute_correlated_exists_subquery(
         let correlation_values = executor.extract_correlation_values(batch, row);
 
         // Check cache first
-        if let Some(SubqueryResult::Boolean(cached)) =
-            executor.get_correlated_cache(plan_hash, &correlation_values)
+        if let Some(SubqueryResult::Boolean(cached)) = correlation_values
+            .as_ref()
+            .and_then(|key| executor.get_correlated_cache(plan_hash, key))
         {
             results.push(if negated { !cached } else { cached });
             continue;
@@ -813,11 +830,9 @@ fn execute_correlated_exists_subquery(
         let exists = executor.execute_exists(&substituted_plan)?;
 
         // Cache the result (before applying negation)
-        executor.set_correlated_cache(
-            plan_hash,
-            correlation_values,
-            SubqueryResult::Boolean(exists),
-        );
+        if let Some(key) = correlation_values {
+            executor.set_correlated_cache(plan_hash, key, SubqueryResult::Boolean(exists));
+        }
         results.push(if negated { !exists } else { exists });
     }
 
